@@ -155,6 +155,15 @@ CLAIMED = {
             "returns the first sample above mean + 2 max deviation and the same index for a*f+b (a>0); the Frechet "
             "estimator is total and invariant for non-constant data. Accuracy and the fit-based estimators are "
             "bounded (fractions measured on the pinned tree, stated in the code).", "3 C08"),
+    "C17": ("other", "contract-based deductive verification: selection/ordering contracts of get_feature_names and "
+            "compute_features (feature bodies under contract, introspection modelled by the class's own methods), "
+            "guard and predicate totality of all feat_* for every state of the fit properties, syntactic purity, "
+            "closed-form range lemmas; bounded numeric checks on fitted curves",
+            "For every type/name selection the names are sorted, duplicate-free and exactly the requested ones, "
+            "values come in that order and indices match; without a usable fit every fit-dependent feature "
+            "returns NaN without reading data or raising; accessors copy and nothing is stored into the curve; "
+            "fraction features lie in [0,1]. Numeric ranges, scale and segment independence involve gaussian "
+            "filters, lstsq and std (external numerics) and are bounded.", "3 C17"),
 }
 
 NOT_APPLICABLE = {
